@@ -182,9 +182,9 @@ static void probe(int rec, unsigned char * base, size_t pre, size_t n, size_t af
         return;
     }
 
-    if (r.verdict == REF_INCOMPLETE) { /* definite-length block cut by the end of input */
-        if (tk.type != SCPI_TOKEN_UNKNOWN || tk.len != 0) viol(rec, "incomplete-block-reported-as-token", NULL, text, n, after, chr, "type %d len %d return %d for a block cut by the end of input", (int) tk.type, tk.len, ret);
-        else if (rec == R_BLOCK && ((size_t) adv != n || ret != 0)) viol(rec, "incomplete-block-cursor", NULL, text, n, after, chr, "cursor moved %ld of %zu, return %d (expected cursor at the end of input, return 0)", adv, n, ret);
+    if (r.verdict == REF_INCOMPLETE) { /* definite-length block, or quoted string, cut by the end of input */
+        if (tk.type != SCPI_TOKEN_UNKNOWN || tk.len != 0) viol(rec, "incomplete-block-reported-as-token", NULL, text, n, after, chr, "type %d len %d return %d for a block/string cut by the end of input", (int) tk.type, tk.len, ret);
+        else if ((rec == R_BLOCK || rec == R_STRING) && ((size_t) adv != n || ret != 0)) viol(rec, "incomplete-block-cursor", NULL, text, n, after, chr, "cursor moved %ld of %zu, return %d (expected cursor at the end of input, return 0)", adv, n, ret);
         else if (rec == R_DATA && (size_t) adv != n) viol(rec, "incomplete-block-cursor", NULL, text, n, after, chr, "cursor moved %ld of %zu", adv, n);
         else if (rec == R_ALLDATA) { if (np >= 0) viol(rec, "parameter-count", NULL, text, n, after, chr, "numberOfParameters %d for a list ending in an incomplete block", np); else if ((size_t) adv == n) kc[K_LIST_INC_CUR_END]++; }
         return;
@@ -574,6 +574,6 @@ int main(int argc, char ** argv) {
     vh_require("unit.bare"); vh_require("unit.ws_only"); vh_require("unit.with_data"); vh_require("unit.malformed");
     vh_require("unit.term_nl"); vh_require("unit.term_semicolon"); vh_require("unit.term_end");
     vh_require("mode.len_cut.text_continues_after_cut"); vh_require("input.with_8bit_byte"); vh_require("input.with_nul_byte"); vh_require("input.longer_than_255");
-    vh_require("string.alt_reading_inputs"); vh_require("alldata.dangling_comma");
+    vh_require("string.incomplete"); vh_require("alldata.dangling_comma");
     return vh_main(argc, argv, "C13", phases, 6);
 }
